@@ -67,15 +67,13 @@ fn contains(t: &FmtBuf, needle: &str) -> bool {
 }
 
 macro_rules! oracle {
-    // the log is kept in rows of 64 entries: CBMC expands arrays of at most 64 elements into scalars (field sensitivity),
-    // so that the (concretely indexed) log costs nothing; CH = number of rows
-    ($o:ident, $W:ident, $ch:expr) => {
+    ($o:ident, $W:ident, $maxc:expr) => {
         pub mod $o {
-            pub const CH: usize = $ch;
-            pub static mut X: [[$W; 64]; CH] = [[0; 64]; CH];
-            pub static mut Y: [[$W; 64]; CH] = [[0; 64]; CH];
-            pub static mut O: [[$W; 64]; CH] = [[0; 64]; CH];
-            pub static mut D: [[bool; 64]; CH] = [[false; 64]; CH];
+            pub const MAXC: usize = $maxc;
+            pub static mut X: [$W; MAXC] = [0; MAXC];
+            pub static mut Y: [$W; MAXC] = [0; MAXC];
+            pub static mut O: [$W; MAXC] = [0; MAXC];
+            pub static mut D: [bool; MAXC] = [false; MAXC];
             pub static mut N: usize = 0; // calls recorded
             pub static mut K: usize = 0; // calls replayed
             pub static mut REPLAY: bool = false;
@@ -85,18 +83,18 @@ macro_rules! oracle {
                     if !REPLAY {
                         let fresh: $W = kani::any();
                         let o = if left && (y == 3 || y == 8) { x.rotate_left(y as u32) } else { fresh };
-                        assert!(N < 64 * CH);
-                        X[N / 64][N % 64] = x;
-                        Y[N / 64][N % 64] = y;
-                        O[N / 64][N % 64] = o;
-                        D[N / 64][N % 64] = left;
+                        assert!(N < MAXC);
+                        X[N] = x;
+                        Y[N] = y;
+                        O[N] = o;
+                        D[N] = left;
                         N += 1;
                         o
                     } else {
                         assert!(K < N);
-                        assert!(D[K / 64][K % 64] == left && X[K / 64][K % 64] == x && Y[K / 64][K % 64] == y, "lock-step: the reference makes the same rotation call");
+                        assert!(D[K] == left && X[K] == x && Y[K] == y, "lock-step: the reference makes the same rotation call");
                         K += 1;
-                        O[(K - 1) / 64][(K - 1) % 64]
+                        O[K - 1]
                     }
                 }
             }
@@ -107,11 +105,13 @@ macro_rules! oracle {
         }
     };
 }
-oracle!(orc8, u8, 58);
-oracle!(orc16, u16, 5);
-oracle!(orc32, u32, 12);
-oracle!(orc64, u64, 7);
-oracle!(orc128, u128, 8);
+oracle!(orc8, u8, 200);
+oracle!(orc8big, u8, 3700);
+oracle!(orc16, u16, 250);
+oracle!(orc32, u32, 250);
+oracle!(orc32big, u32, 700);
+oracle!(orc64, u64, 380);
+oracle!(orc128, u128, 440);
 
 macro_rules! any_rc5 {
     ($W:ty, $R:ty, $B:ty, $t:expr) => {
@@ -222,175 +222,177 @@ macro_rules! rc5_inst {
 }
 
 // ---------------------------------------------------------------- the instantiations
+// (for the instantiations that differ from another one only in B, the block functions are the same code on the same
+//  table type -- B is a PhantomData parameter -- and only the key-schedule and API obligations are registered)
 // RC5-8/12/4: RC5<u8, U12, U4>  (t = 26, c = 4)
-// @ob name=t8_12_4_ks props=C10,C20 kind=contract uses=c_word_u8,c_word_u16,c_word_u32,c_word_u64,c_word_u128 fn=rc5::RC5::substitute_key,rc5::RC5::key_into_words,rc5::RC5::initialize_expanded_key_table,rc5::RC5::mix_in timeout=300 note="RC5-8/12/4"
-// @ob name=t8_12_4_enc props=C10,C20 kind=contract fn=rc5::RC5::encrypt_block,rc5::RC5::words_from_block,rc5::RC5::block_from_words timeout=300 note="RC5-8/12/4"
-// @ob name=t8_12_4_dec props=C10,C20 kind=contract fn=rc5::RC5::decrypt_block,rc5::RC5::words_from_block,rc5::RC5::block_from_words timeout=300 note="RC5-8/12/4"
-// @ob name=t8_12_4_rt1 props=C01 kind=contract fn=rc5::RC5::encrypt_block,rc5::RC5::decrypt_block timeout=300 note="RC5-8/12/4"
-// @ob name=t8_12_4_rt2 props=C01 kind=contract fn=rc5::RC5::encrypt_block,rc5::RC5::decrypt_block timeout=300 note="RC5-8/12/4"
-// @ob name=t8_12_4_api_enc props=C10,C20 kind=contract uses=c_word_u8,c_word_u16,c_word_u32,c_word_u64,c_word_u128 fn=rc5::RC5::new,rc5::RC5::encrypt_block timeout=300 note="RC5-8/12/4"
-// @ob name=t8_12_4_api_dec props=C10,C20 kind=contract uses=c_word_u8,c_word_u16,c_word_u32,c_word_u64,c_word_u128 fn=rc5::RC5::new,rc5::RC5::decrypt_block timeout=300 note="RC5-8/12/4"
+// @ob name=t8_12_4_ks props=C10,C20 kind=contract uses=c_word_u8,c_word_u16,c_word_u32,c_word_u64,c_word_u128 fn=rc5::RC5::substitute_key,rc5::RC5::key_into_words,rc5::RC5::initialize_expanded_key_table,rc5::RC5::mix_in timeout=600 note="RC5-8/12/4"
+// @ob name=t8_12_4_enc props=C10,C20 kind=contract fn=rc5::RC5::encrypt_block,rc5::RC5::words_from_block,rc5::RC5::block_from_words timeout=600 note="RC5-8/12/4"
+// @ob name=t8_12_4_dec props=C10,C20 kind=contract fn=rc5::RC5::decrypt_block,rc5::RC5::words_from_block,rc5::RC5::block_from_words timeout=600 note="RC5-8/12/4"
+// @ob name=t8_12_4_rt1 props=C01 kind=contract fn=rc5::RC5::encrypt_block,rc5::RC5::decrypt_block timeout=600 note="RC5-8/12/4"
+// @ob name=t8_12_4_rt2 props=C01 kind=contract fn=rc5::RC5::encrypt_block,rc5::RC5::decrypt_block timeout=600 note="RC5-8/12/4"
+// @ob name=t8_12_4_api_enc props=C10,C20 kind=contract tier=thorough uses=c_word_u8,c_word_u16,c_word_u32,c_word_u64,c_word_u128 fn=rc5::RC5::new,rc5::RC5::encrypt_block timeout=3600 note="RC5-8/12/4"
+// @ob name=t8_12_4_api_dec props=C10,C20 kind=contract tier=thorough uses=c_word_u8,c_word_u16,c_word_u32,c_word_u64,c_word_u128 fn=rc5::RC5::new,rc5::RC5::decrypt_block timeout=3600 note="RC5-8/12/4"
 rc5_inst!(u8, U12, U4, m=w8, o=orc8, u=1, t=26, c=4, b=4, unw=80;
     t8_12_4_ks, t8_12_4_enc, t8_12_4_dec, t8_12_4_rt1, t8_12_4_rt2, t8_12_4_api_enc, t8_12_4_api_dec);
 // RC5-16/16/8: RC5<u16, U16, U8>  (t = 34, c = 4)
-// @ob name=t16_16_8_ks props=C10,C20 kind=contract uses=c_word_u8,c_word_u16,c_word_u32,c_word_u64,c_word_u128 fn=rc5::RC5::substitute_key,rc5::RC5::key_into_words,rc5::RC5::initialize_expanded_key_table,rc5::RC5::mix_in timeout=300 note="RC5-16/16/8"
-// @ob name=t16_16_8_enc props=C10,C20 kind=contract fn=rc5::RC5::encrypt_block,rc5::RC5::words_from_block,rc5::RC5::block_from_words timeout=300 note="RC5-16/16/8"
-// @ob name=t16_16_8_dec props=C10,C20 kind=contract fn=rc5::RC5::decrypt_block,rc5::RC5::words_from_block,rc5::RC5::block_from_words timeout=300 note="RC5-16/16/8"
-// @ob name=t16_16_8_rt1 props=C01 kind=contract fn=rc5::RC5::encrypt_block,rc5::RC5::decrypt_block timeout=300 note="RC5-16/16/8"
-// @ob name=t16_16_8_rt2 props=C01 kind=contract fn=rc5::RC5::encrypt_block,rc5::RC5::decrypt_block timeout=300 note="RC5-16/16/8"
-// @ob name=t16_16_8_api_enc props=C10,C20 kind=contract uses=c_word_u8,c_word_u16,c_word_u32,c_word_u64,c_word_u128 fn=rc5::RC5::new,rc5::RC5::encrypt_block timeout=300 note="RC5-16/16/8"
-// @ob name=t16_16_8_api_dec props=C10,C20 kind=contract uses=c_word_u8,c_word_u16,c_word_u32,c_word_u64,c_word_u128 fn=rc5::RC5::new,rc5::RC5::decrypt_block timeout=300 note="RC5-16/16/8"
+// @ob name=t16_16_8_ks props=C10,C20 kind=contract uses=c_word_u8,c_word_u16,c_word_u32,c_word_u64,c_word_u128 fn=rc5::RC5::substitute_key,rc5::RC5::key_into_words,rc5::RC5::initialize_expanded_key_table,rc5::RC5::mix_in timeout=600 note="RC5-16/16/8"
+// @ob name=t16_16_8_enc props=C10,C20 kind=contract fn=rc5::RC5::encrypt_block,rc5::RC5::words_from_block,rc5::RC5::block_from_words timeout=600 note="RC5-16/16/8"
+// @ob name=t16_16_8_dec props=C10,C20 kind=contract fn=rc5::RC5::decrypt_block,rc5::RC5::words_from_block,rc5::RC5::block_from_words timeout=600 note="RC5-16/16/8"
+// @ob name=t16_16_8_rt1 props=C01 kind=contract fn=rc5::RC5::encrypt_block,rc5::RC5::decrypt_block timeout=600 note="RC5-16/16/8"
+// @ob name=t16_16_8_rt2 props=C01 kind=contract fn=rc5::RC5::encrypt_block,rc5::RC5::decrypt_block timeout=600 note="RC5-16/16/8"
+// @ob name=t16_16_8_api_enc props=C10,C20 kind=contract tier=thorough uses=c_word_u8,c_word_u16,c_word_u32,c_word_u64,c_word_u128 fn=rc5::RC5::new,rc5::RC5::encrypt_block timeout=3600 note="RC5-16/16/8"
+// @ob name=t16_16_8_api_dec props=C10,C20 kind=contract tier=thorough uses=c_word_u8,c_word_u16,c_word_u32,c_word_u64,c_word_u128 fn=rc5::RC5::new,rc5::RC5::decrypt_block timeout=3600 note="RC5-16/16/8"
 rc5_inst!(u16, U16, U8, m=w16, o=orc16, u=2, t=34, c=4, b=8, unw=104;
     t16_16_8_ks, t16_16_8_enc, t16_16_8_dec, t16_16_8_rt1, t16_16_8_rt2, t16_16_8_api_enc, t16_16_8_api_dec);
 // RC5-32/12/16: RC5<u32, U12, U16>  (t = 26, c = 4)
-// @ob name=t32_12_16_ks props=C10,C20 kind=contract uses=c_word_u8,c_word_u16,c_word_u32,c_word_u64,c_word_u128 fn=rc5::RC5::substitute_key,rc5::RC5::key_into_words,rc5::RC5::initialize_expanded_key_table,rc5::RC5::mix_in timeout=300 note="RC5-32/12/16"
-// @ob name=t32_12_16_enc props=C10,C20 kind=contract fn=rc5::RC5::encrypt_block,rc5::RC5::words_from_block,rc5::RC5::block_from_words timeout=300 note="RC5-32/12/16"
-// @ob name=t32_12_16_dec props=C10,C20 kind=contract fn=rc5::RC5::decrypt_block,rc5::RC5::words_from_block,rc5::RC5::block_from_words timeout=300 note="RC5-32/12/16"
-// @ob name=t32_12_16_rt1 props=C01 kind=contract fn=rc5::RC5::encrypt_block,rc5::RC5::decrypt_block timeout=300 note="RC5-32/12/16"
-// @ob name=t32_12_16_rt2 props=C01 kind=contract fn=rc5::RC5::encrypt_block,rc5::RC5::decrypt_block timeout=300 note="RC5-32/12/16"
-// @ob name=t32_12_16_api_enc props=C10,C20 kind=contract uses=c_word_u8,c_word_u16,c_word_u32,c_word_u64,c_word_u128 fn=rc5::RC5::new,rc5::RC5::encrypt_block timeout=300 note="RC5-32/12/16"
-// @ob name=t32_12_16_api_dec props=C10,C20 kind=contract uses=c_word_u8,c_word_u16,c_word_u32,c_word_u64,c_word_u128 fn=rc5::RC5::new,rc5::RC5::decrypt_block timeout=300 note="RC5-32/12/16"
+// @ob name=t32_12_16_ks props=C10,C20 kind=contract uses=c_word_u8,c_word_u16,c_word_u32,c_word_u64,c_word_u128 fn=rc5::RC5::substitute_key,rc5::RC5::key_into_words,rc5::RC5::initialize_expanded_key_table,rc5::RC5::mix_in timeout=600 note="RC5-32/12/16"
+// @ob name=t32_12_16_enc props=C10,C20 kind=contract fn=rc5::RC5::encrypt_block,rc5::RC5::words_from_block,rc5::RC5::block_from_words timeout=600 note="RC5-32/12/16"
+// @ob name=t32_12_16_dec props=C10,C20 kind=contract fn=rc5::RC5::decrypt_block,rc5::RC5::words_from_block,rc5::RC5::block_from_words timeout=600 note="RC5-32/12/16"
+// @ob name=t32_12_16_rt1 props=C01 kind=contract fn=rc5::RC5::encrypt_block,rc5::RC5::decrypt_block timeout=600 note="RC5-32/12/16"
+// @ob name=t32_12_16_rt2 props=C01 kind=contract fn=rc5::RC5::encrypt_block,rc5::RC5::decrypt_block timeout=600 note="RC5-32/12/16"
+// @ob name=t32_12_16_api_enc props=C10,C20 kind=contract tier=thorough uses=c_word_u8,c_word_u16,c_word_u32,c_word_u64,c_word_u128 fn=rc5::RC5::new,rc5::RC5::encrypt_block timeout=3600 note="RC5-32/12/16"
+// @ob name=t32_12_16_api_dec props=C10,C20 kind=contract tier=thorough uses=c_word_u8,c_word_u16,c_word_u32,c_word_u64,c_word_u128 fn=rc5::RC5::new,rc5::RC5::decrypt_block timeout=3600 note="RC5-32/12/16"
 rc5_inst!(u32, U12, U16, m=w32, o=orc32, u=4, t=26, c=4, b=16, unw=80;
     t32_12_16_ks, t32_12_16_enc, t32_12_16_dec, t32_12_16_rt1, t32_12_16_rt2, t32_12_16_api_enc, t32_12_16_api_dec);
 // RC5-32/16/16: RC5<u32, U16, U16>  (t = 34, c = 4)
-// @ob name=t32_16_16_ks props=C10,C20 kind=contract uses=c_word_u8,c_word_u16,c_word_u32,c_word_u64,c_word_u128 fn=rc5::RC5::substitute_key,rc5::RC5::key_into_words,rc5::RC5::initialize_expanded_key_table,rc5::RC5::mix_in timeout=300 note="RC5-32/16/16"
-// @ob name=t32_16_16_enc props=C10,C20 kind=contract fn=rc5::RC5::encrypt_block,rc5::RC5::words_from_block,rc5::RC5::block_from_words timeout=300 note="RC5-32/16/16"
-// @ob name=t32_16_16_dec props=C10,C20 kind=contract fn=rc5::RC5::decrypt_block,rc5::RC5::words_from_block,rc5::RC5::block_from_words timeout=300 note="RC5-32/16/16"
-// @ob name=t32_16_16_rt1 props=C01 kind=contract fn=rc5::RC5::encrypt_block,rc5::RC5::decrypt_block timeout=300 note="RC5-32/16/16"
-// @ob name=t32_16_16_rt2 props=C01 kind=contract fn=rc5::RC5::encrypt_block,rc5::RC5::decrypt_block timeout=300 note="RC5-32/16/16"
-// @ob name=t32_16_16_api_enc props=C10,C20 kind=contract uses=c_word_u8,c_word_u16,c_word_u32,c_word_u64,c_word_u128 fn=rc5::RC5::new,rc5::RC5::encrypt_block timeout=300 note="RC5-32/16/16"
-// @ob name=t32_16_16_api_dec props=C10,C20 kind=contract uses=c_word_u8,c_word_u16,c_word_u32,c_word_u64,c_word_u128 fn=rc5::RC5::new,rc5::RC5::decrypt_block timeout=300 note="RC5-32/16/16"
+// @ob name=t32_16_16_ks props=C10,C20 kind=contract uses=c_word_u8,c_word_u16,c_word_u32,c_word_u64,c_word_u128 fn=rc5::RC5::substitute_key,rc5::RC5::key_into_words,rc5::RC5::initialize_expanded_key_table,rc5::RC5::mix_in timeout=600 note="RC5-32/16/16"
+// @ob name=t32_16_16_enc props=C10,C20 kind=contract fn=rc5::RC5::encrypt_block,rc5::RC5::words_from_block,rc5::RC5::block_from_words timeout=600 note="RC5-32/16/16"
+// @ob name=t32_16_16_dec props=C10,C20 kind=contract fn=rc5::RC5::decrypt_block,rc5::RC5::words_from_block,rc5::RC5::block_from_words timeout=600 note="RC5-32/16/16"
+// @ob name=t32_16_16_rt1 props=C01 kind=contract fn=rc5::RC5::encrypt_block,rc5::RC5::decrypt_block timeout=600 note="RC5-32/16/16"
+// @ob name=t32_16_16_rt2 props=C01 kind=contract fn=rc5::RC5::encrypt_block,rc5::RC5::decrypt_block timeout=600 note="RC5-32/16/16"
+// @ob name=t32_16_16_api_enc props=C10,C20 kind=contract tier=thorough uses=c_word_u8,c_word_u16,c_word_u32,c_word_u64,c_word_u128 fn=rc5::RC5::new,rc5::RC5::encrypt_block timeout=3600 note="RC5-32/16/16"
+// @ob name=t32_16_16_api_dec props=C10,C20 kind=contract tier=thorough uses=c_word_u8,c_word_u16,c_word_u32,c_word_u64,c_word_u128 fn=rc5::RC5::new,rc5::RC5::decrypt_block timeout=3600 note="RC5-32/16/16"
 rc5_inst!(u32, U16, U16, m=w32, o=orc32, u=4, t=34, c=4, b=16, unw=104;
     t32_16_16_ks, t32_16_16_enc, t32_16_16_dec, t32_16_16_rt1, t32_16_16_rt2, t32_16_16_api_enc, t32_16_16_api_dec);
 // RC5-64/24/24: RC5<u64, U24, U24>  (t = 50, c = 3)
-// @ob name=t64_24_24_ks props=C10,C20 kind=contract uses=c_word_u8,c_word_u16,c_word_u32,c_word_u64,c_word_u128 fn=rc5::RC5::substitute_key,rc5::RC5::key_into_words,rc5::RC5::initialize_expanded_key_table,rc5::RC5::mix_in timeout=300 note="RC5-64/24/24"
-// @ob name=t64_24_24_enc props=C10,C20 kind=contract fn=rc5::RC5::encrypt_block,rc5::RC5::words_from_block,rc5::RC5::block_from_words timeout=300 note="RC5-64/24/24"
-// @ob name=t64_24_24_dec props=C10,C20 kind=contract fn=rc5::RC5::decrypt_block,rc5::RC5::words_from_block,rc5::RC5::block_from_words timeout=300 note="RC5-64/24/24"
-// @ob name=t64_24_24_rt1 props=C01 kind=contract fn=rc5::RC5::encrypt_block,rc5::RC5::decrypt_block timeout=300 note="RC5-64/24/24"
-// @ob name=t64_24_24_rt2 props=C01 kind=contract fn=rc5::RC5::encrypt_block,rc5::RC5::decrypt_block timeout=300 note="RC5-64/24/24"
-// @ob name=t64_24_24_api_enc props=C10,C20 kind=contract uses=c_word_u8,c_word_u16,c_word_u32,c_word_u64,c_word_u128 fn=rc5::RC5::new,rc5::RC5::encrypt_block timeout=300 note="RC5-64/24/24"
-// @ob name=t64_24_24_api_dec props=C10,C20 kind=contract uses=c_word_u8,c_word_u16,c_word_u32,c_word_u64,c_word_u128 fn=rc5::RC5::new,rc5::RC5::decrypt_block timeout=300 note="RC5-64/24/24"
+// @ob name=t64_24_24_ks props=C10,C20 kind=contract uses=c_word_u8,c_word_u16,c_word_u32,c_word_u64,c_word_u128 fn=rc5::RC5::substitute_key,rc5::RC5::key_into_words,rc5::RC5::initialize_expanded_key_table,rc5::RC5::mix_in timeout=600 note="RC5-64/24/24"
+// @ob name=t64_24_24_enc props=C10,C20 kind=contract fn=rc5::RC5::encrypt_block,rc5::RC5::words_from_block,rc5::RC5::block_from_words timeout=600 note="RC5-64/24/24"
+// @ob name=t64_24_24_dec props=C10,C20 kind=contract fn=rc5::RC5::decrypt_block,rc5::RC5::words_from_block,rc5::RC5::block_from_words timeout=600 note="RC5-64/24/24"
+// @ob name=t64_24_24_rt1 props=C01 kind=contract fn=rc5::RC5::encrypt_block,rc5::RC5::decrypt_block timeout=600 note="RC5-64/24/24"
+// @ob name=t64_24_24_rt2 props=C01 kind=contract fn=rc5::RC5::encrypt_block,rc5::RC5::decrypt_block timeout=600 note="RC5-64/24/24"
+// @ob name=t64_24_24_api_enc props=C10,C20 kind=contract tier=thorough uses=c_word_u8,c_word_u16,c_word_u32,c_word_u64,c_word_u128 fn=rc5::RC5::new,rc5::RC5::encrypt_block timeout=3600 note="RC5-64/24/24"
+// @ob name=t64_24_24_api_dec props=C10,C20 kind=contract tier=thorough uses=c_word_u8,c_word_u16,c_word_u32,c_word_u64,c_word_u128 fn=rc5::RC5::new,rc5::RC5::decrypt_block timeout=3600 note="RC5-64/24/24"
 rc5_inst!(u64, U24, U24, m=w64, o=orc64, u=8, t=50, c=3, b=24, unw=152;
     t64_24_24_ks, t64_24_24_enc, t64_24_24_dec, t64_24_24_rt1, t64_24_24_rt2, t64_24_24_api_enc, t64_24_24_api_dec);
 // RC5-128/28/32: RC5<u128, U28, U32>  (t = 58, c = 2)
-// @ob name=t128_28_32_ks props=C10,C20 kind=contract uses=c_word_u8,c_word_u16,c_word_u32,c_word_u64,c_word_u128 fn=rc5::RC5::substitute_key,rc5::RC5::key_into_words,rc5::RC5::initialize_expanded_key_table,rc5::RC5::mix_in timeout=300 note="RC5-128/28/32"
-// @ob name=t128_28_32_enc props=C10,C20 kind=contract fn=rc5::RC5::encrypt_block,rc5::RC5::words_from_block,rc5::RC5::block_from_words timeout=300 note="RC5-128/28/32"
-// @ob name=t128_28_32_dec props=C10,C20 kind=contract fn=rc5::RC5::decrypt_block,rc5::RC5::words_from_block,rc5::RC5::block_from_words timeout=300 note="RC5-128/28/32"
-// @ob name=t128_28_32_rt1 props=C01 kind=contract fn=rc5::RC5::encrypt_block,rc5::RC5::decrypt_block timeout=300 note="RC5-128/28/32"
-// @ob name=t128_28_32_rt2 props=C01 kind=contract fn=rc5::RC5::encrypt_block,rc5::RC5::decrypt_block timeout=300 note="RC5-128/28/32"
-// @ob name=t128_28_32_api_enc props=C10,C20 kind=contract uses=c_word_u8,c_word_u16,c_word_u32,c_word_u64,c_word_u128 fn=rc5::RC5::new,rc5::RC5::encrypt_block timeout=300 note="RC5-128/28/32"
-// @ob name=t128_28_32_api_dec props=C10,C20 kind=contract uses=c_word_u8,c_word_u16,c_word_u32,c_word_u64,c_word_u128 fn=rc5::RC5::new,rc5::RC5::decrypt_block timeout=300 note="RC5-128/28/32"
+// @ob name=t128_28_32_ks props=C10,C20 kind=contract uses=c_word_u8,c_word_u16,c_word_u32,c_word_u64,c_word_u128 fn=rc5::RC5::substitute_key,rc5::RC5::key_into_words,rc5::RC5::initialize_expanded_key_table,rc5::RC5::mix_in timeout=600 note="RC5-128/28/32"
+// @ob name=t128_28_32_enc props=C10,C20 kind=contract fn=rc5::RC5::encrypt_block,rc5::RC5::words_from_block,rc5::RC5::block_from_words timeout=600 note="RC5-128/28/32"
+// @ob name=t128_28_32_dec props=C10,C20 kind=contract fn=rc5::RC5::decrypt_block,rc5::RC5::words_from_block,rc5::RC5::block_from_words timeout=600 note="RC5-128/28/32"
+// @ob name=t128_28_32_rt1 props=C01 kind=contract fn=rc5::RC5::encrypt_block,rc5::RC5::decrypt_block timeout=600 note="RC5-128/28/32"
+// @ob name=t128_28_32_rt2 props=C01 kind=contract fn=rc5::RC5::encrypt_block,rc5::RC5::decrypt_block timeout=600 note="RC5-128/28/32"
+// @ob name=t128_28_32_api_enc props=C10,C20 kind=contract tier=thorough uses=c_word_u8,c_word_u16,c_word_u32,c_word_u64,c_word_u128 fn=rc5::RC5::new,rc5::RC5::encrypt_block timeout=3600 note="RC5-128/28/32"
+// @ob name=t128_28_32_api_dec props=C10,C20 kind=contract tier=thorough uses=c_word_u8,c_word_u16,c_word_u32,c_word_u64,c_word_u128 fn=rc5::RC5::new,rc5::RC5::decrypt_block timeout=3600 note="RC5-128/28/32"
 rc5_inst!(u128, U28, U32, m=w128, o=orc128, u=16, t=58, c=2, b=32, unw=176;
     t128_28_32_ks, t128_28_32_enc, t128_28_32_dec, t128_28_32_rt1, t128_28_32_rt2, t128_28_32_api_enc, t128_28_32_api_dec);
 // RC5-32/0/16: RC5<u32, U0, U16>  (t = 2, c = 4)
-// @ob name=r0_32_0_16_ks props=C10,C20 kind=contract uses=c_word_u8,c_word_u16,c_word_u32,c_word_u64,c_word_u128 fn=rc5::RC5::substitute_key,rc5::RC5::key_into_words,rc5::RC5::initialize_expanded_key_table,rc5::RC5::mix_in timeout=300 note="RC5-32/0/16"
-// @ob name=r0_32_0_16_enc props=C10,C20 kind=contract fn=rc5::RC5::encrypt_block,rc5::RC5::words_from_block,rc5::RC5::block_from_words timeout=300 note="RC5-32/0/16"
-// @ob name=r0_32_0_16_dec props=C10,C20 kind=contract fn=rc5::RC5::decrypt_block,rc5::RC5::words_from_block,rc5::RC5::block_from_words timeout=300 note="RC5-32/0/16"
-// @ob name=r0_32_0_16_rt1 props=C01 kind=contract fn=rc5::RC5::encrypt_block,rc5::RC5::decrypt_block timeout=300 note="RC5-32/0/16"
-// @ob name=r0_32_0_16_rt2 props=C01 kind=contract fn=rc5::RC5::encrypt_block,rc5::RC5::decrypt_block timeout=300 note="RC5-32/0/16"
-// @ob name=r0_32_0_16_api_enc props=C10,C20 kind=contract uses=c_word_u8,c_word_u16,c_word_u32,c_word_u64,c_word_u128 fn=rc5::RC5::new,rc5::RC5::encrypt_block timeout=300 note="RC5-32/0/16"
-// @ob name=r0_32_0_16_api_dec props=C10,C20 kind=contract uses=c_word_u8,c_word_u16,c_word_u32,c_word_u64,c_word_u128 fn=rc5::RC5::new,rc5::RC5::decrypt_block timeout=300 note="RC5-32/0/16"
+// @ob name=r0_32_0_16_ks props=C10,C20 kind=contract uses=c_word_u8,c_word_u16,c_word_u32,c_word_u64,c_word_u128 fn=rc5::RC5::substitute_key,rc5::RC5::key_into_words,rc5::RC5::initialize_expanded_key_table,rc5::RC5::mix_in timeout=600 note="RC5-32/0/16"
+// @ob name=r0_32_0_16_enc props=C10,C20 kind=contract fn=rc5::RC5::encrypt_block,rc5::RC5::words_from_block,rc5::RC5::block_from_words timeout=600 note="RC5-32/0/16"
+// @ob name=r0_32_0_16_dec props=C10,C20 kind=contract fn=rc5::RC5::decrypt_block,rc5::RC5::words_from_block,rc5::RC5::block_from_words timeout=600 note="RC5-32/0/16"
+// @ob name=r0_32_0_16_rt1 props=C01 kind=contract fn=rc5::RC5::encrypt_block,rc5::RC5::decrypt_block timeout=600 note="RC5-32/0/16"
+// @ob name=r0_32_0_16_rt2 props=C01 kind=contract fn=rc5::RC5::encrypt_block,rc5::RC5::decrypt_block timeout=600 note="RC5-32/0/16"
+// @ob name=r0_32_0_16_api_enc props=C10,C20 kind=contract tier=thorough uses=c_word_u8,c_word_u16,c_word_u32,c_word_u64,c_word_u128 fn=rc5::RC5::new,rc5::RC5::encrypt_block timeout=3600 note="RC5-32/0/16"
+// @ob name=r0_32_0_16_api_dec props=C10,C20 kind=contract tier=thorough uses=c_word_u8,c_word_u16,c_word_u32,c_word_u64,c_word_u128 fn=rc5::RC5::new,rc5::RC5::decrypt_block timeout=3600 note="RC5-32/0/16"
 rc5_inst!(u32, U0, U16, m=w32, o=orc32, u=4, t=2, c=4, b=16, unw=18;
     r0_32_0_16_ks, r0_32_0_16_enc, r0_32_0_16_dec, r0_32_0_16_rt1, r0_32_0_16_rt2, r0_32_0_16_api_enc, r0_32_0_16_api_dec);
 // RC5-32/1/16: RC5<u32, U1, U16>  (t = 4, c = 4)
-// @ob name=r1_32_1_16_ks props=C10,C20 kind=contract uses=c_word_u8,c_word_u16,c_word_u32,c_word_u64,c_word_u128 fn=rc5::RC5::substitute_key,rc5::RC5::key_into_words,rc5::RC5::initialize_expanded_key_table,rc5::RC5::mix_in timeout=300 note="RC5-32/1/16"
-// @ob name=r1_32_1_16_enc props=C10,C20 kind=contract fn=rc5::RC5::encrypt_block,rc5::RC5::words_from_block,rc5::RC5::block_from_words timeout=300 note="RC5-32/1/16"
-// @ob name=r1_32_1_16_dec props=C10,C20 kind=contract fn=rc5::RC5::decrypt_block,rc5::RC5::words_from_block,rc5::RC5::block_from_words timeout=300 note="RC5-32/1/16"
-// @ob name=r1_32_1_16_rt1 props=C01 kind=contract fn=rc5::RC5::encrypt_block,rc5::RC5::decrypt_block timeout=300 note="RC5-32/1/16"
-// @ob name=r1_32_1_16_rt2 props=C01 kind=contract fn=rc5::RC5::encrypt_block,rc5::RC5::decrypt_block timeout=300 note="RC5-32/1/16"
-// @ob name=r1_32_1_16_api_enc props=C10,C20 kind=contract uses=c_word_u8,c_word_u16,c_word_u32,c_word_u64,c_word_u128 fn=rc5::RC5::new,rc5::RC5::encrypt_block timeout=300 note="RC5-32/1/16"
-// @ob name=r1_32_1_16_api_dec props=C10,C20 kind=contract uses=c_word_u8,c_word_u16,c_word_u32,c_word_u64,c_word_u128 fn=rc5::RC5::new,rc5::RC5::decrypt_block timeout=300 note="RC5-32/1/16"
+// @ob name=r1_32_1_16_ks props=C10,C20 kind=contract uses=c_word_u8,c_word_u16,c_word_u32,c_word_u64,c_word_u128 fn=rc5::RC5::substitute_key,rc5::RC5::key_into_words,rc5::RC5::initialize_expanded_key_table,rc5::RC5::mix_in timeout=600 note="RC5-32/1/16"
+// @ob name=r1_32_1_16_enc props=C10,C20 kind=contract fn=rc5::RC5::encrypt_block,rc5::RC5::words_from_block,rc5::RC5::block_from_words timeout=600 note="RC5-32/1/16"
+// @ob name=r1_32_1_16_dec props=C10,C20 kind=contract fn=rc5::RC5::decrypt_block,rc5::RC5::words_from_block,rc5::RC5::block_from_words timeout=600 note="RC5-32/1/16"
+// @ob name=r1_32_1_16_rt1 props=C01 kind=contract fn=rc5::RC5::encrypt_block,rc5::RC5::decrypt_block timeout=600 note="RC5-32/1/16"
+// @ob name=r1_32_1_16_rt2 props=C01 kind=contract fn=rc5::RC5::encrypt_block,rc5::RC5::decrypt_block timeout=600 note="RC5-32/1/16"
+// @ob name=r1_32_1_16_api_enc props=C10,C20 kind=contract tier=thorough uses=c_word_u8,c_word_u16,c_word_u32,c_word_u64,c_word_u128 fn=rc5::RC5::new,rc5::RC5::encrypt_block timeout=3600 note="RC5-32/1/16"
+// @ob name=r1_32_1_16_api_dec props=C10,C20 kind=contract tier=thorough uses=c_word_u8,c_word_u16,c_word_u32,c_word_u64,c_word_u128 fn=rc5::RC5::new,rc5::RC5::decrypt_block timeout=3600 note="RC5-32/1/16"
 rc5_inst!(u32, U1, U16, m=w32, o=orc32, u=4, t=4, c=4, b=16, unw=18;
     r1_32_1_16_ks, r1_32_1_16_enc, r1_32_1_16_dec, r1_32_1_16_rt1, r1_32_1_16_rt2, r1_32_1_16_api_enc, r1_32_1_16_api_dec);
-// RC5-8/255/4: RC5<u8, U255, U4>  (t = 512, c = 4)   (r = 255 with 8-bit words: 510 data-dependent rotations per block are out of reach for wider words)
-// @ob name=r255_8_255_4_ks props=C10,C20 kind=contract uses=c_word_u8,c_word_u16,c_word_u32,c_word_u64,c_word_u128 fn=rc5::RC5::substitute_key,rc5::RC5::key_into_words,rc5::RC5::initialize_expanded_key_table,rc5::RC5::mix_in timeout=300 note="RC5-8/255/4"
-// @ob name=r255_8_255_4_enc props=C10,C20 kind=contract fn=rc5::RC5::encrypt_block,rc5::RC5::words_from_block,rc5::RC5::block_from_words timeout=300 note="RC5-8/255/4"
-// @ob name=r255_8_255_4_dec props=C10,C20 kind=contract fn=rc5::RC5::decrypt_block,rc5::RC5::words_from_block,rc5::RC5::block_from_words timeout=300 note="RC5-8/255/4"
-// @ob name=r255_8_255_4_rt1 props=C01 kind=contract fn=rc5::RC5::encrypt_block,rc5::RC5::decrypt_block timeout=300 note="RC5-8/255/4"
-// @ob name=r255_8_255_4_rt2 props=C01 kind=contract fn=rc5::RC5::encrypt_block,rc5::RC5::decrypt_block timeout=300 note="RC5-8/255/4"
-// @ob name=r255_8_255_4_api_enc props=C10,C20 kind=contract uses=c_word_u8,c_word_u16,c_word_u32,c_word_u64,c_word_u128 fn=rc5::RC5::new,rc5::RC5::encrypt_block timeout=300 note="RC5-8/255/4"
-// @ob name=r255_8_255_4_api_dec props=C10,C20 kind=contract uses=c_word_u8,c_word_u16,c_word_u32,c_word_u64,c_word_u128 fn=rc5::RC5::new,rc5::RC5::decrypt_block timeout=300 note="RC5-8/255/4"
-rc5_inst!(u8, U255, U4, m=w8, o=orc8, u=1, t=512, c=4, b=4, unw=1538;
+// RC5-8/255/4: RC5<u8, U255, U4>  (t = 512, c = 4)
+// @ob name=r255_8_255_4_ks props=C10,C20 kind=contract uses=c_word_u8,c_word_u16,c_word_u32,c_word_u64,c_word_u128 fn=rc5::RC5::substitute_key,rc5::RC5::key_into_words,rc5::RC5::initialize_expanded_key_table,rc5::RC5::mix_in timeout=600 note="RC5-8/255/4"
+// @ob name=r255_8_255_4_enc props=C10,C20 kind=contract fn=rc5::RC5::encrypt_block,rc5::RC5::words_from_block,rc5::RC5::block_from_words timeout=600 note="RC5-8/255/4"
+// @ob name=r255_8_255_4_dec props=C10,C20 kind=contract fn=rc5::RC5::decrypt_block,rc5::RC5::words_from_block,rc5::RC5::block_from_words timeout=600 note="RC5-8/255/4"
+// @ob name=r255_8_255_4_rt1 props=C01 kind=contract fn=rc5::RC5::encrypt_block,rc5::RC5::decrypt_block timeout=600 note="RC5-8/255/4"
+// @ob name=r255_8_255_4_rt2 props=C01 kind=contract fn=rc5::RC5::encrypt_block,rc5::RC5::decrypt_block timeout=600 note="RC5-8/255/4"
+// @ob name=r255_8_255_4_api_enc props=C10,C20 kind=contract tier=thorough uses=c_word_u8,c_word_u16,c_word_u32,c_word_u64,c_word_u128 fn=rc5::RC5::new,rc5::RC5::encrypt_block timeout=3600 note="RC5-8/255/4"
+// @ob name=r255_8_255_4_api_dec props=C10,C20 kind=contract tier=thorough uses=c_word_u8,c_word_u16,c_word_u32,c_word_u64,c_word_u128 fn=rc5::RC5::new,rc5::RC5::decrypt_block timeout=3600 note="RC5-8/255/4"
+rc5_inst!(u8, U255, U4, m=w8, o=orc8big, u=1, t=512, c=4, b=4, unw=1538;
     r255_8_255_4_ks, r255_8_255_4_enc, r255_8_255_4_dec, r255_8_255_4_rt1, r255_8_255_4_rt2, r255_8_255_4_api_enc, r255_8_255_4_api_dec);
 // RC5-32/12/1: RC5<u32, U12, U1>  (t = 26, c = 1)
-// @ob name=b1_32_12_1_ks props=C10,C20 kind=contract uses=c_word_u8,c_word_u16,c_word_u32,c_word_u64,c_word_u128 fn=rc5::RC5::substitute_key,rc5::RC5::key_into_words,rc5::RC5::initialize_expanded_key_table,rc5::RC5::mix_in timeout=300 note="RC5-32/12/1"
-// @ob name=b1_32_12_1_enc props=C10,C20 kind=contract fn=rc5::RC5::encrypt_block,rc5::RC5::words_from_block,rc5::RC5::block_from_words timeout=300 note="RC5-32/12/1"
-// @ob name=b1_32_12_1_dec props=C10,C20 kind=contract fn=rc5::RC5::decrypt_block,rc5::RC5::words_from_block,rc5::RC5::block_from_words timeout=300 note="RC5-32/12/1"
-// @ob name=b1_32_12_1_rt1 props=C01 kind=contract fn=rc5::RC5::encrypt_block,rc5::RC5::decrypt_block timeout=300 note="RC5-32/12/1"
-// @ob name=b1_32_12_1_rt2 props=C01 kind=contract fn=rc5::RC5::encrypt_block,rc5::RC5::decrypt_block timeout=300 note="RC5-32/12/1"
-// @ob name=b1_32_12_1_api_enc props=C10,C20 kind=contract uses=c_word_u8,c_word_u16,c_word_u32,c_word_u64,c_word_u128 fn=rc5::RC5::new,rc5::RC5::encrypt_block timeout=300 note="RC5-32/12/1"
-// @ob name=b1_32_12_1_api_dec props=C10,C20 kind=contract uses=c_word_u8,c_word_u16,c_word_u32,c_word_u64,c_word_u128 fn=rc5::RC5::new,rc5::RC5::decrypt_block timeout=300 note="RC5-32/12/1"
+// @ob name=b1_32_12_1_ks props=C10,C20 kind=contract uses=c_word_u8,c_word_u16,c_word_u32,c_word_u64,c_word_u128 fn=rc5::RC5::substitute_key,rc5::RC5::key_into_words,rc5::RC5::initialize_expanded_key_table,rc5::RC5::mix_in timeout=600 note="RC5-32/12/1"
+// (same block functions as above) @-ob name=b1_32_12_1_enc props=C10,C20 kind=contract fn=rc5::RC5::encrypt_block,rc5::RC5::words_from_block,rc5::RC5::block_from_words timeout=600 note="RC5-32/12/1"
+// (same block functions as above) @-ob name=b1_32_12_1_dec props=C10,C20 kind=contract fn=rc5::RC5::decrypt_block,rc5::RC5::words_from_block,rc5::RC5::block_from_words timeout=600 note="RC5-32/12/1"
+// (same block functions as above) @-ob name=b1_32_12_1_rt1 props=C01 kind=contract fn=rc5::RC5::encrypt_block,rc5::RC5::decrypt_block timeout=600 note="RC5-32/12/1"
+// (same block functions as above) @-ob name=b1_32_12_1_rt2 props=C01 kind=contract fn=rc5::RC5::encrypt_block,rc5::RC5::decrypt_block timeout=600 note="RC5-32/12/1"
+// @ob name=b1_32_12_1_api_enc props=C10,C20 kind=contract tier=thorough uses=c_word_u8,c_word_u16,c_word_u32,c_word_u64,c_word_u128 fn=rc5::RC5::new,rc5::RC5::encrypt_block timeout=3600 note="RC5-32/12/1"
+// @ob name=b1_32_12_1_api_dec props=C10,C20 kind=contract tier=thorough uses=c_word_u8,c_word_u16,c_word_u32,c_word_u64,c_word_u128 fn=rc5::RC5::new,rc5::RC5::decrypt_block timeout=3600 note="RC5-32/12/1"
 rc5_inst!(u32, U12, U1, m=w32, o=orc32, u=4, t=26, c=1, b=1, unw=80;
     b1_32_12_1_ks, b1_32_12_1_enc, b1_32_12_1_dec, b1_32_12_1_rt1, b1_32_12_1_rt2, b1_32_12_1_api_enc, b1_32_12_1_api_dec);
 // RC5-32/12/3: RC5<u32, U12, U3>  (t = 26, c = 1)
-// @ob name=b3_32_12_3_ks props=C10,C20 kind=contract uses=c_word_u8,c_word_u16,c_word_u32,c_word_u64,c_word_u128 fn=rc5::RC5::substitute_key,rc5::RC5::key_into_words,rc5::RC5::initialize_expanded_key_table,rc5::RC5::mix_in timeout=300 note="RC5-32/12/3"
-// @ob name=b3_32_12_3_enc props=C10,C20 kind=contract fn=rc5::RC5::encrypt_block,rc5::RC5::words_from_block,rc5::RC5::block_from_words timeout=300 note="RC5-32/12/3"
-// @ob name=b3_32_12_3_dec props=C10,C20 kind=contract fn=rc5::RC5::decrypt_block,rc5::RC5::words_from_block,rc5::RC5::block_from_words timeout=300 note="RC5-32/12/3"
-// @ob name=b3_32_12_3_rt1 props=C01 kind=contract fn=rc5::RC5::encrypt_block,rc5::RC5::decrypt_block timeout=300 note="RC5-32/12/3"
-// @ob name=b3_32_12_3_rt2 props=C01 kind=contract fn=rc5::RC5::encrypt_block,rc5::RC5::decrypt_block timeout=300 note="RC5-32/12/3"
-// @ob name=b3_32_12_3_api_enc props=C10,C20 kind=contract uses=c_word_u8,c_word_u16,c_word_u32,c_word_u64,c_word_u128 fn=rc5::RC5::new,rc5::RC5::encrypt_block timeout=300 note="RC5-32/12/3"
-// @ob name=b3_32_12_3_api_dec props=C10,C20 kind=contract uses=c_word_u8,c_word_u16,c_word_u32,c_word_u64,c_word_u128 fn=rc5::RC5::new,rc5::RC5::decrypt_block timeout=300 note="RC5-32/12/3"
+// @ob name=b3_32_12_3_ks props=C10,C20 kind=contract uses=c_word_u8,c_word_u16,c_word_u32,c_word_u64,c_word_u128 fn=rc5::RC5::substitute_key,rc5::RC5::key_into_words,rc5::RC5::initialize_expanded_key_table,rc5::RC5::mix_in timeout=600 note="RC5-32/12/3"
+// (same block functions as above) @-ob name=b3_32_12_3_enc props=C10,C20 kind=contract fn=rc5::RC5::encrypt_block,rc5::RC5::words_from_block,rc5::RC5::block_from_words timeout=600 note="RC5-32/12/3"
+// (same block functions as above) @-ob name=b3_32_12_3_dec props=C10,C20 kind=contract fn=rc5::RC5::decrypt_block,rc5::RC5::words_from_block,rc5::RC5::block_from_words timeout=600 note="RC5-32/12/3"
+// (same block functions as above) @-ob name=b3_32_12_3_rt1 props=C01 kind=contract fn=rc5::RC5::encrypt_block,rc5::RC5::decrypt_block timeout=600 note="RC5-32/12/3"
+// (same block functions as above) @-ob name=b3_32_12_3_rt2 props=C01 kind=contract fn=rc5::RC5::encrypt_block,rc5::RC5::decrypt_block timeout=600 note="RC5-32/12/3"
+// @ob name=b3_32_12_3_api_enc props=C10,C20 kind=contract tier=thorough uses=c_word_u8,c_word_u16,c_word_u32,c_word_u64,c_word_u128 fn=rc5::RC5::new,rc5::RC5::encrypt_block timeout=3600 note="RC5-32/12/3"
+// @ob name=b3_32_12_3_api_dec props=C10,C20 kind=contract tier=thorough uses=c_word_u8,c_word_u16,c_word_u32,c_word_u64,c_word_u128 fn=rc5::RC5::new,rc5::RC5::decrypt_block timeout=3600 note="RC5-32/12/3"
 rc5_inst!(u32, U12, U3, m=w32, o=orc32, u=4, t=26, c=1, b=3, unw=80;
     b3_32_12_3_ks, b3_32_12_3_enc, b3_32_12_3_dec, b3_32_12_3_rt1, b3_32_12_3_rt2, b3_32_12_3_api_enc, b3_32_12_3_api_dec);
 // RC5-32/12/7: RC5<u32, U12, U7>  (t = 26, c = 2)
-// @ob name=b7_32_12_7_ks props=C10,C20 kind=contract uses=c_word_u8,c_word_u16,c_word_u32,c_word_u64,c_word_u128 fn=rc5::RC5::substitute_key,rc5::RC5::key_into_words,rc5::RC5::initialize_expanded_key_table,rc5::RC5::mix_in timeout=300 note="RC5-32/12/7"
-// @ob name=b7_32_12_7_enc props=C10,C20 kind=contract fn=rc5::RC5::encrypt_block,rc5::RC5::words_from_block,rc5::RC5::block_from_words timeout=300 note="RC5-32/12/7"
-// @ob name=b7_32_12_7_dec props=C10,C20 kind=contract fn=rc5::RC5::decrypt_block,rc5::RC5::words_from_block,rc5::RC5::block_from_words timeout=300 note="RC5-32/12/7"
-// @ob name=b7_32_12_7_rt1 props=C01 kind=contract fn=rc5::RC5::encrypt_block,rc5::RC5::decrypt_block timeout=300 note="RC5-32/12/7"
-// @ob name=b7_32_12_7_rt2 props=C01 kind=contract fn=rc5::RC5::encrypt_block,rc5::RC5::decrypt_block timeout=300 note="RC5-32/12/7"
-// @ob name=b7_32_12_7_api_enc props=C10,C20 kind=contract uses=c_word_u8,c_word_u16,c_word_u32,c_word_u64,c_word_u128 fn=rc5::RC5::new,rc5::RC5::encrypt_block timeout=300 note="RC5-32/12/7"
-// @ob name=b7_32_12_7_api_dec props=C10,C20 kind=contract uses=c_word_u8,c_word_u16,c_word_u32,c_word_u64,c_word_u128 fn=rc5::RC5::new,rc5::RC5::decrypt_block timeout=300 note="RC5-32/12/7"
+// @ob name=b7_32_12_7_ks props=C10,C20 kind=contract uses=c_word_u8,c_word_u16,c_word_u32,c_word_u64,c_word_u128 fn=rc5::RC5::substitute_key,rc5::RC5::key_into_words,rc5::RC5::initialize_expanded_key_table,rc5::RC5::mix_in timeout=600 note="RC5-32/12/7"
+// (same block functions as above) @-ob name=b7_32_12_7_enc props=C10,C20 kind=contract fn=rc5::RC5::encrypt_block,rc5::RC5::words_from_block,rc5::RC5::block_from_words timeout=600 note="RC5-32/12/7"
+// (same block functions as above) @-ob name=b7_32_12_7_dec props=C10,C20 kind=contract fn=rc5::RC5::decrypt_block,rc5::RC5::words_from_block,rc5::RC5::block_from_words timeout=600 note="RC5-32/12/7"
+// (same block functions as above) @-ob name=b7_32_12_7_rt1 props=C01 kind=contract fn=rc5::RC5::encrypt_block,rc5::RC5::decrypt_block timeout=600 note="RC5-32/12/7"
+// (same block functions as above) @-ob name=b7_32_12_7_rt2 props=C01 kind=contract fn=rc5::RC5::encrypt_block,rc5::RC5::decrypt_block timeout=600 note="RC5-32/12/7"
+// @ob name=b7_32_12_7_api_enc props=C10,C20 kind=contract tier=thorough uses=c_word_u8,c_word_u16,c_word_u32,c_word_u64,c_word_u128 fn=rc5::RC5::new,rc5::RC5::encrypt_block timeout=3600 note="RC5-32/12/7"
+// @ob name=b7_32_12_7_api_dec props=C10,C20 kind=contract tier=thorough uses=c_word_u8,c_word_u16,c_word_u32,c_word_u64,c_word_u128 fn=rc5::RC5::new,rc5::RC5::decrypt_block timeout=3600 note="RC5-32/12/7"
 rc5_inst!(u32, U12, U7, m=w32, o=orc32, u=4, t=26, c=2, b=7, unw=80;
     b7_32_12_7_ks, b7_32_12_7_enc, b7_32_12_7_dec, b7_32_12_7_rt1, b7_32_12_7_rt2, b7_32_12_7_api_enc, b7_32_12_7_api_dec);
 // RC5-32/12/255: RC5<u32, U12, U255>  (t = 26, c = 64)
-// @ob name=b255_32_12_255_ks props=C10,C20 kind=contract uses=c_word_u8,c_word_u16,c_word_u32,c_word_u64,c_word_u128 fn=rc5::RC5::substitute_key,rc5::RC5::key_into_words,rc5::RC5::initialize_expanded_key_table,rc5::RC5::mix_in timeout=300 note="RC5-32/12/255"
-// @ob name=b255_32_12_255_enc props=C10,C20 kind=contract fn=rc5::RC5::encrypt_block,rc5::RC5::words_from_block,rc5::RC5::block_from_words timeout=300 note="RC5-32/12/255"
-// @ob name=b255_32_12_255_dec props=C10,C20 kind=contract fn=rc5::RC5::decrypt_block,rc5::RC5::words_from_block,rc5::RC5::block_from_words timeout=300 note="RC5-32/12/255"
-// @ob name=b255_32_12_255_rt1 props=C01 kind=contract fn=rc5::RC5::encrypt_block,rc5::RC5::decrypt_block timeout=300 note="RC5-32/12/255"
-// @ob name=b255_32_12_255_rt2 props=C01 kind=contract fn=rc5::RC5::encrypt_block,rc5::RC5::decrypt_block timeout=300 note="RC5-32/12/255"
-// @ob name=b255_32_12_255_api_enc props=C10,C20 kind=contract uses=c_word_u8,c_word_u16,c_word_u32,c_word_u64,c_word_u128 fn=rc5::RC5::new,rc5::RC5::encrypt_block timeout=300 note="RC5-32/12/255"
-// @ob name=b255_32_12_255_api_dec props=C10,C20 kind=contract uses=c_word_u8,c_word_u16,c_word_u32,c_word_u64,c_word_u128 fn=rc5::RC5::new,rc5::RC5::decrypt_block timeout=300 note="RC5-32/12/255"
-rc5_inst!(u32, U12, U255, m=w32, o=orc32, u=4, t=26, c=64, b=255, unw=257;
+// @ob name=b255_32_12_255_ks props=C10,C20 kind=contract uses=c_word_u8,c_word_u16,c_word_u32,c_word_u64,c_word_u128 fn=rc5::RC5::substitute_key,rc5::RC5::key_into_words,rc5::RC5::initialize_expanded_key_table,rc5::RC5::mix_in timeout=600 note="RC5-32/12/255"
+// (same block functions as above) @-ob name=b255_32_12_255_enc props=C10,C20 kind=contract fn=rc5::RC5::encrypt_block,rc5::RC5::words_from_block,rc5::RC5::block_from_words timeout=600 note="RC5-32/12/255"
+// (same block functions as above) @-ob name=b255_32_12_255_dec props=C10,C20 kind=contract fn=rc5::RC5::decrypt_block,rc5::RC5::words_from_block,rc5::RC5::block_from_words timeout=600 note="RC5-32/12/255"
+// (same block functions as above) @-ob name=b255_32_12_255_rt1 props=C01 kind=contract fn=rc5::RC5::encrypt_block,rc5::RC5::decrypt_block timeout=600 note="RC5-32/12/255"
+// (same block functions as above) @-ob name=b255_32_12_255_rt2 props=C01 kind=contract fn=rc5::RC5::encrypt_block,rc5::RC5::decrypt_block timeout=600 note="RC5-32/12/255"
+// @ob name=b255_32_12_255_api_enc props=C10,C20 kind=contract tier=thorough uses=c_word_u8,c_word_u16,c_word_u32,c_word_u64,c_word_u128 fn=rc5::RC5::new,rc5::RC5::encrypt_block timeout=3600 note="RC5-32/12/255"
+// @ob name=b255_32_12_255_api_dec props=C10,C20 kind=contract tier=thorough uses=c_word_u8,c_word_u16,c_word_u32,c_word_u64,c_word_u128 fn=rc5::RC5::new,rc5::RC5::decrypt_block timeout=3600 note="RC5-32/12/255"
+rc5_inst!(u32, U12, U255, m=w32, o=orc32big, u=4, t=26, c=64, b=255, unw=257;
     b255_32_12_255_ks, b255_32_12_255_enc, b255_32_12_255_dec, b255_32_12_255_rt1, b255_32_12_255_rt2, b255_32_12_255_api_enc, b255_32_12_255_api_dec);
 // RC5-16/12/3: RC5<u16, U12, U3>  (t = 26, c = 2)
-// @ob name=n16_12_3_ks props=C10,C20 kind=contract uses=c_word_u8,c_word_u16,c_word_u32,c_word_u64,c_word_u128 fn=rc5::RC5::substitute_key,rc5::RC5::key_into_words,rc5::RC5::initialize_expanded_key_table,rc5::RC5::mix_in timeout=300 note="RC5-16/12/3"
-// @ob name=n16_12_3_enc props=C10,C20 kind=contract fn=rc5::RC5::encrypt_block,rc5::RC5::words_from_block,rc5::RC5::block_from_words timeout=300 note="RC5-16/12/3"
-// @ob name=n16_12_3_dec props=C10,C20 kind=contract fn=rc5::RC5::decrypt_block,rc5::RC5::words_from_block,rc5::RC5::block_from_words timeout=300 note="RC5-16/12/3"
-// @ob name=n16_12_3_rt1 props=C01 kind=contract fn=rc5::RC5::encrypt_block,rc5::RC5::decrypt_block timeout=300 note="RC5-16/12/3"
-// @ob name=n16_12_3_rt2 props=C01 kind=contract fn=rc5::RC5::encrypt_block,rc5::RC5::decrypt_block timeout=300 note="RC5-16/12/3"
-// @ob name=n16_12_3_api_enc props=C10,C20 kind=contract uses=c_word_u8,c_word_u16,c_word_u32,c_word_u64,c_word_u128 fn=rc5::RC5::new,rc5::RC5::encrypt_block timeout=300 note="RC5-16/12/3"
-// @ob name=n16_12_3_api_dec props=C10,C20 kind=contract uses=c_word_u8,c_word_u16,c_word_u32,c_word_u64,c_word_u128 fn=rc5::RC5::new,rc5::RC5::decrypt_block timeout=300 note="RC5-16/12/3"
+// @ob name=n16_12_3_ks props=C10,C20 kind=contract uses=c_word_u8,c_word_u16,c_word_u32,c_word_u64,c_word_u128 fn=rc5::RC5::substitute_key,rc5::RC5::key_into_words,rc5::RC5::initialize_expanded_key_table,rc5::RC5::mix_in timeout=600 note="RC5-16/12/3"
+// @ob name=n16_12_3_enc props=C10,C20 kind=contract fn=rc5::RC5::encrypt_block,rc5::RC5::words_from_block,rc5::RC5::block_from_words timeout=600 note="RC5-16/12/3"
+// @ob name=n16_12_3_dec props=C10,C20 kind=contract fn=rc5::RC5::decrypt_block,rc5::RC5::words_from_block,rc5::RC5::block_from_words timeout=600 note="RC5-16/12/3"
+// @ob name=n16_12_3_rt1 props=C01 kind=contract fn=rc5::RC5::encrypt_block,rc5::RC5::decrypt_block timeout=600 note="RC5-16/12/3"
+// @ob name=n16_12_3_rt2 props=C01 kind=contract fn=rc5::RC5::encrypt_block,rc5::RC5::decrypt_block timeout=600 note="RC5-16/12/3"
+// @ob name=n16_12_3_api_enc props=C10,C20 kind=contract tier=thorough uses=c_word_u8,c_word_u16,c_word_u32,c_word_u64,c_word_u128 fn=rc5::RC5::new,rc5::RC5::encrypt_block timeout=3600 note="RC5-16/12/3"
+// @ob name=n16_12_3_api_dec props=C10,C20 kind=contract tier=thorough uses=c_word_u8,c_word_u16,c_word_u32,c_word_u64,c_word_u128 fn=rc5::RC5::new,rc5::RC5::decrypt_block timeout=3600 note="RC5-16/12/3"
 rc5_inst!(u16, U12, U3, m=w16, o=orc16, u=2, t=26, c=2, b=3, unw=80;
     n16_12_3_ks, n16_12_3_enc, n16_12_3_dec, n16_12_3_rt1, n16_12_3_rt2, n16_12_3_api_enc, n16_12_3_api_dec);
 // RC5-64/12/9: RC5<u64, U12, U9>  (t = 26, c = 2)
-// @ob name=n64_12_9_ks props=C10,C20 kind=contract uses=c_word_u8,c_word_u16,c_word_u32,c_word_u64,c_word_u128 fn=rc5::RC5::substitute_key,rc5::RC5::key_into_words,rc5::RC5::initialize_expanded_key_table,rc5::RC5::mix_in timeout=300 note="RC5-64/12/9"
-// @ob name=n64_12_9_enc props=C10,C20 kind=contract fn=rc5::RC5::encrypt_block,rc5::RC5::words_from_block,rc5::RC5::block_from_words timeout=300 note="RC5-64/12/9"
-// @ob name=n64_12_9_dec props=C10,C20 kind=contract fn=rc5::RC5::decrypt_block,rc5::RC5::words_from_block,rc5::RC5::block_from_words timeout=300 note="RC5-64/12/9"
-// @ob name=n64_12_9_rt1 props=C01 kind=contract fn=rc5::RC5::encrypt_block,rc5::RC5::decrypt_block timeout=300 note="RC5-64/12/9"
-// @ob name=n64_12_9_rt2 props=C01 kind=contract fn=rc5::RC5::encrypt_block,rc5::RC5::decrypt_block timeout=300 note="RC5-64/12/9"
-// @ob name=n64_12_9_api_enc props=C10,C20 kind=contract uses=c_word_u8,c_word_u16,c_word_u32,c_word_u64,c_word_u128 fn=rc5::RC5::new,rc5::RC5::encrypt_block timeout=300 note="RC5-64/12/9"
-// @ob name=n64_12_9_api_dec props=C10,C20 kind=contract uses=c_word_u8,c_word_u16,c_word_u32,c_word_u64,c_word_u128 fn=rc5::RC5::new,rc5::RC5::decrypt_block timeout=300 note="RC5-64/12/9"
+// @ob name=n64_12_9_ks props=C10,C20 kind=contract uses=c_word_u8,c_word_u16,c_word_u32,c_word_u64,c_word_u128 fn=rc5::RC5::substitute_key,rc5::RC5::key_into_words,rc5::RC5::initialize_expanded_key_table,rc5::RC5::mix_in timeout=600 note="RC5-64/12/9"
+// @ob name=n64_12_9_enc props=C10,C20 kind=contract fn=rc5::RC5::encrypt_block,rc5::RC5::words_from_block,rc5::RC5::block_from_words timeout=600 note="RC5-64/12/9"
+// @ob name=n64_12_9_dec props=C10,C20 kind=contract fn=rc5::RC5::decrypt_block,rc5::RC5::words_from_block,rc5::RC5::block_from_words timeout=600 note="RC5-64/12/9"
+// @ob name=n64_12_9_rt1 props=C01 kind=contract fn=rc5::RC5::encrypt_block,rc5::RC5::decrypt_block timeout=600 note="RC5-64/12/9"
+// @ob name=n64_12_9_rt2 props=C01 kind=contract fn=rc5::RC5::encrypt_block,rc5::RC5::decrypt_block timeout=600 note="RC5-64/12/9"
+// @ob name=n64_12_9_api_enc props=C10,C20 kind=contract tier=thorough uses=c_word_u8,c_word_u16,c_word_u32,c_word_u64,c_word_u128 fn=rc5::RC5::new,rc5::RC5::encrypt_block timeout=3600 note="RC5-64/12/9"
+// @ob name=n64_12_9_api_dec props=C10,C20 kind=contract tier=thorough uses=c_word_u8,c_word_u16,c_word_u32,c_word_u64,c_word_u128 fn=rc5::RC5::new,rc5::RC5::decrypt_block timeout=3600 note="RC5-64/12/9"
 rc5_inst!(u64, U12, U9, m=w64, o=orc64, u=8, t=26, c=2, b=9, unw=80;
     n64_12_9_ks, n64_12_9_enc, n64_12_9_dec, n64_12_9_rt1, n64_12_9_rt2, n64_12_9_api_enc, n64_12_9_api_dec);
 // RC5-128/12/17: RC5<u128, U12, U17>  (t = 26, c = 2)
-// @ob name=n128_12_17_ks props=C10,C20 kind=contract uses=c_word_u8,c_word_u16,c_word_u32,c_word_u64,c_word_u128 fn=rc5::RC5::substitute_key,rc5::RC5::key_into_words,rc5::RC5::initialize_expanded_key_table,rc5::RC5::mix_in timeout=300 note="RC5-128/12/17"
-// @ob name=n128_12_17_enc props=C10,C20 kind=contract fn=rc5::RC5::encrypt_block,rc5::RC5::words_from_block,rc5::RC5::block_from_words timeout=300 note="RC5-128/12/17"
-// @ob name=n128_12_17_dec props=C10,C20 kind=contract fn=rc5::RC5::decrypt_block,rc5::RC5::words_from_block,rc5::RC5::block_from_words timeout=300 note="RC5-128/12/17"
-// @ob name=n128_12_17_rt1 props=C01 kind=contract fn=rc5::RC5::encrypt_block,rc5::RC5::decrypt_block timeout=300 note="RC5-128/12/17"
-// @ob name=n128_12_17_rt2 props=C01 kind=contract fn=rc5::RC5::encrypt_block,rc5::RC5::decrypt_block timeout=300 note="RC5-128/12/17"
-// @ob name=n128_12_17_api_enc props=C10,C20 kind=contract uses=c_word_u8,c_word_u16,c_word_u32,c_word_u64,c_word_u128 fn=rc5::RC5::new,rc5::RC5::encrypt_block timeout=300 note="RC5-128/12/17"
-// @ob name=n128_12_17_api_dec props=C10,C20 kind=contract uses=c_word_u8,c_word_u16,c_word_u32,c_word_u64,c_word_u128 fn=rc5::RC5::new,rc5::RC5::decrypt_block timeout=300 note="RC5-128/12/17"
+// @ob name=n128_12_17_ks props=C10,C20 kind=contract uses=c_word_u8,c_word_u16,c_word_u32,c_word_u64,c_word_u128 fn=rc5::RC5::substitute_key,rc5::RC5::key_into_words,rc5::RC5::initialize_expanded_key_table,rc5::RC5::mix_in timeout=600 note="RC5-128/12/17"
+// @ob name=n128_12_17_enc props=C10,C20 kind=contract fn=rc5::RC5::encrypt_block,rc5::RC5::words_from_block,rc5::RC5::block_from_words timeout=600 note="RC5-128/12/17"
+// @ob name=n128_12_17_dec props=C10,C20 kind=contract fn=rc5::RC5::decrypt_block,rc5::RC5::words_from_block,rc5::RC5::block_from_words timeout=600 note="RC5-128/12/17"
+// @ob name=n128_12_17_rt1 props=C01 kind=contract fn=rc5::RC5::encrypt_block,rc5::RC5::decrypt_block timeout=600 note="RC5-128/12/17"
+// @ob name=n128_12_17_rt2 props=C01 kind=contract fn=rc5::RC5::encrypt_block,rc5::RC5::decrypt_block timeout=600 note="RC5-128/12/17"
+// @ob name=n128_12_17_api_enc props=C10,C20 kind=contract tier=thorough uses=c_word_u8,c_word_u16,c_word_u32,c_word_u64,c_word_u128 fn=rc5::RC5::new,rc5::RC5::encrypt_block timeout=3600 note="RC5-128/12/17"
+// @ob name=n128_12_17_api_dec props=C10,C20 kind=contract tier=thorough uses=c_word_u8,c_word_u16,c_word_u32,c_word_u64,c_word_u128 fn=rc5::RC5::new,rc5::RC5::decrypt_block timeout=3600 note="RC5-128/12/17"
 rc5_inst!(u128, U12, U17, m=w128, o=orc128, u=16, t=26, c=2, b=17, unw=80;
     n128_12_17_ks, n128_12_17_enc, n128_12_17_dec, n128_12_17_rt1, n128_12_17_rt2, n128_12_17_api_enc, n128_12_17_api_dec);
 // RC5-8/12/255: RC5<u8, U12, U255>  (t = 26, c = 255)
-// @ob name=b255_8_12_255_ks props=C10,C20 kind=contract uses=c_word_u8,c_word_u16,c_word_u32,c_word_u64,c_word_u128 fn=rc5::RC5::substitute_key,rc5::RC5::key_into_words,rc5::RC5::initialize_expanded_key_table,rc5::RC5::mix_in timeout=300 note="RC5-8/12/255"
-// @ob name=b255_8_12_255_enc props=C10,C20 kind=contract fn=rc5::RC5::encrypt_block,rc5::RC5::words_from_block,rc5::RC5::block_from_words timeout=300 note="RC5-8/12/255"
-// @ob name=b255_8_12_255_dec props=C10,C20 kind=contract fn=rc5::RC5::decrypt_block,rc5::RC5::words_from_block,rc5::RC5::block_from_words timeout=300 note="RC5-8/12/255"
-// @ob name=b255_8_12_255_rt1 props=C01 kind=contract fn=rc5::RC5::encrypt_block,rc5::RC5::decrypt_block timeout=300 note="RC5-8/12/255"
-// @ob name=b255_8_12_255_rt2 props=C01 kind=contract fn=rc5::RC5::encrypt_block,rc5::RC5::decrypt_block timeout=300 note="RC5-8/12/255"
-// @ob name=b255_8_12_255_api_enc props=C10,C20 kind=contract uses=c_word_u8,c_word_u16,c_word_u32,c_word_u64,c_word_u128 fn=rc5::RC5::new,rc5::RC5::encrypt_block timeout=300 note="RC5-8/12/255"
-// @ob name=b255_8_12_255_api_dec props=C10,C20 kind=contract uses=c_word_u8,c_word_u16,c_word_u32,c_word_u64,c_word_u128 fn=rc5::RC5::new,rc5::RC5::decrypt_block timeout=300 note="RC5-8/12/255"
-rc5_inst!(u8, U12, U255, m=w8, o=orc8, u=1, t=26, c=255, b=255, unw=767;
+// @ob name=b255_8_12_255_ks props=C10,C20 kind=contract uses=c_word_u8,c_word_u16,c_word_u32,c_word_u64,c_word_u128 fn=rc5::RC5::substitute_key,rc5::RC5::key_into_words,rc5::RC5::initialize_expanded_key_table,rc5::RC5::mix_in timeout=600 note="RC5-8/12/255"
+// (same block functions as above) @-ob name=b255_8_12_255_enc props=C10,C20 kind=contract fn=rc5::RC5::encrypt_block,rc5::RC5::words_from_block,rc5::RC5::block_from_words timeout=600 note="RC5-8/12/255"
+// (same block functions as above) @-ob name=b255_8_12_255_dec props=C10,C20 kind=contract fn=rc5::RC5::decrypt_block,rc5::RC5::words_from_block,rc5::RC5::block_from_words timeout=600 note="RC5-8/12/255"
+// (same block functions as above) @-ob name=b255_8_12_255_rt1 props=C01 kind=contract fn=rc5::RC5::encrypt_block,rc5::RC5::decrypt_block timeout=600 note="RC5-8/12/255"
+// (same block functions as above) @-ob name=b255_8_12_255_rt2 props=C01 kind=contract fn=rc5::RC5::encrypt_block,rc5::RC5::decrypt_block timeout=600 note="RC5-8/12/255"
+// @ob name=b255_8_12_255_api_enc props=C10,C20 kind=contract tier=thorough uses=c_word_u8,c_word_u16,c_word_u32,c_word_u64,c_word_u128 fn=rc5::RC5::new,rc5::RC5::encrypt_block timeout=3600 note="RC5-8/12/255"
+// @ob name=b255_8_12_255_api_dec props=C10,C20 kind=contract tier=thorough uses=c_word_u8,c_word_u16,c_word_u32,c_word_u64,c_word_u128 fn=rc5::RC5::new,rc5::RC5::decrypt_block timeout=3600 note="RC5-8/12/255"
+rc5_inst!(u8, U12, U255, m=w8, o=orc8big, u=1, t=26, c=255, b=255, unw=767;
     b255_8_12_255_ks, b255_8_12_255_enc, b255_8_12_255_dec, b255_8_12_255_rt1, b255_8_12_255_rt2, b255_8_12_255_api_enc, b255_8_12_255_api_dec);
 
 // ---------------------------------------------------------------- key length 0 (C10): accepted by the type, RC5 prescribes c = max(1, ceil(8b/w)) = 1
